@@ -172,6 +172,27 @@ func execute(x *explore.Exec, sc *Scn) *result {
 			case 'I':
 				vtime.Sleep(31 * time.Second)
 				H.add(event{Kind: "quiet"})
+			case 'c':
+				// wait until every handler that was started has returned and its connection's
+				// Close has completed (the handler threads have finished) - but not for the loop
+				// to take their close notifications: what is sent next is "a later datagram"
+				vsched.Yield("await-closed", func() bool {
+					n := 0
+					for _, t := range vsched.Threads() {
+						f := strings.SplitN(t, ":", 3)
+						if f[0] == "main" || f[0] == "serve" {
+							continue
+						}
+						if f[1] != "done" && f[2] != "readfrom" {
+							return false
+						}
+						if f[1] == "done" {
+							n++
+						}
+					}
+					return n > 0
+				})
+				H.add(event{Kind: "quiet"})
 			case 'F':
 				vsched.Point("fail")
 				H.add(event{Kind: "socket-fail"})
@@ -456,6 +477,15 @@ func scenarios(tier string, yield func(any) bool) {
 		scripts = []string{"BAAA", "BAAAqA", "ABBB", "AABBB", "BAAAB", "ABAAqB"}
 		if tier != "thorough" {
 			modes, scripts = modes[:2], []string{"BAAA", "ABBB", "BAAAqA"}
+		}
+	}
+	if os.Getenv("VERIF_C09_SUBSET") == "" {
+		// a datagram sent after its client's handler has returned and closed, while the loop may
+		// not yet have taken the close notification
+		for _, s := range []string{"AcA", "ABcA", "AcAB", "AAcA"} {
+			if !yield(&Scn{Mode: "echo", Script: s}) {
+				return
+			}
 		}
 	}
 	if os.Getenv("VERIF_C09_SUBSET") == "" {
